@@ -53,6 +53,9 @@ type Opt struct {
 	Stdin   string
 	Env     []string // extra KEY=VALUE
 	Timeout time.Duration
+	// MaxFiles > 0: run with this soft limit on open file descriptors (ulimit -n), so that behaviour
+	// that depends on descriptor exhaustion does not depend on the machine the check runs on
+	MaxFiles int
 }
 
 // Run executes the binary with args. Exit is -1 if killed by a signal.
@@ -68,6 +71,10 @@ func Run(o Opt, args ...string) Result {
 	ctx, cancel := context.WithTimeout(context.Background(), to)
 	defer cancel()
 	cmd := exec.CommandContext(ctx, bin, args...)
+	if o.MaxFiles > 0 {
+		sh := fmt.Sprintf(`ulimit -n %d; exec "$0" "$@"`, o.MaxFiles)
+		cmd = exec.CommandContext(ctx, "/bin/sh", append([]string{"-c", sh, bin}, args...)...)
+	}
 	cmd.Dir = o.Dir
 	home := o.Home
 	if home == "" {
